@@ -10,13 +10,18 @@ from curies import Converter, Record
 
 
 def mk_record(r: dict) -> Record:
-    return Record(
-        prefix=r["prefix"],
-        uri_prefix=r["uri_prefix"],
-        prefix_synonyms=list(r.get("prefix_synonyms", [])),
-        uri_prefix_synonyms=list(r.get("uri_prefix_synonyms", [])),
-        pattern=r.get("pattern"),
-    )
+    """The Record a spec entry denotes. Half of the entries (decided by the lengths of their canonical strings, so that it
+    is a pure function of the case) are created the way a plain prefix map creates them - empty synonym lists and a missing
+    pattern are NOT passed, so pydantic treats those fields as unset - the other half with every field passed explicitly."""
+    kw = {"prefix": r["prefix"], "uri_prefix": r["uri_prefix"]}
+    explicit = (len(r["prefix"]) + len(r["uri_prefix"])) % 2 == 0
+    if explicit or r.get("prefix_synonyms"):
+        kw["prefix_synonyms"] = list(r.get("prefix_synonyms", []))
+    if explicit or r.get("uri_prefix_synonyms"):
+        kw["uri_prefix_synonyms"] = list(r.get("uri_prefix_synonyms", []))
+    if explicit or r.get("pattern") is not None:
+        kw["pattern"] = r.get("pattern")
+    return Record(**kw)
 
 
 def mk_bare_record(prefix: str, uri_prefix: str, pattern=None) -> Record:
@@ -196,7 +201,8 @@ def mk_split_merge(spec: dict) -> Converter:
     d = spec.get("delimiter", ":")
     firsts, seconds = [], []
     for r in spec["records"]:
-        ps, us = list(r["prefix_synonyms"]), list(r["uri_prefix_synonyms"])
+        # (a synonym listed twice is split as if listed once: the two halves must not name themselves)
+        ps, us = list(dict.fromkeys(r["prefix_synonyms"])), list(dict.fromkeys(r["uri_prefix_synonyms"]))
         if not ps:
             firsts.append(mk_record(r))
             continue
@@ -340,6 +346,13 @@ def mk_after_rejected_calls(spec: dict) -> Converter:
         attempt(lambda: c.add_prefix(p_new, u_new, uri_prefix_synonyms=[_fresh(taken_u, "rejected://s"), r1["uri_prefix"]]))
         attempt(lambda: c.add_record(Record(prefix=r1["prefix"], uri_prefix=u_new)))
         attempt(lambda: c.add_record(Record(prefix=p_new, uri_prefix=r1["uri_prefix"])))
+        # ... and with every synonym of the record (looked up in synonym lists that keep the order they were given in)
+        for syn in r1["prefix_synonyms"]:
+            attempt(lambda: c.add_record(Record(prefix=syn, uri_prefix=u_new)))
+            attempt(lambda: c.add_prefix(p_new, u_new, prefix_synonyms=[syn]))
+        for syn in r1["uri_prefix_synonyms"]:
+            attempt(lambda: c.add_record(Record(prefix=p_new, uri_prefix=syn)))
+            attempt(lambda: c.add_prefix(p_new, u_new, uri_prefix_synonyms=[syn]))
     return c
 
 
